@@ -361,3 +361,182 @@ func initialPacketBuffered(c *core.Ctx, R string) {
 	}
 	c.Check(R, "engine.(*baseServer).Construct/plain-reader→buffer", u.Pos(), ok, "SetInitialPacket(buffer read from the reader) on the edge where the configured value is not a types.BufferInterface")
 }
+
+// upgradeAttemptConcludedOnce (C08.12 = C19.6 = C03.22 = C12.13) — fixes dbd3d2b, 22efbbe, 55be51f.
+func upgradeAttemptConcludedOnce(c *core.Ctx, R string) {
+	c.Rule(R, "an upgrade attempt ends once: MaybeUpgrade's exit paths (upgrade packet, unexpected packet, error / close of the candidate or the session, timeout) run on different goroutines; conclude() = {lock; finished ⇒ false; finished = true; true} and every one of them proceeds only on its true edge; the probe branch arms the noop interval and records the probe with the same mutex held and only while not finished; the switch needs a recorded probe; after setTransport a closed session tears the new transport down before anything is announced; the discarding Close publishes 'closing' before it closes the (possibly already replaced) transport")
+	mu := c.Fn(R, sockUpgrade)
+	if mu == nil {
+		return
+	}
+	// conclude
+	if k := c.KidOf(R, mu, "conclude"); k != nil {
+		c.Touch(k)
+		g := k.Graph()
+		finishedIs := func(want bool) core.Guard {
+			return func(x *core.Unit, br core.Branch) int {
+				if !br.IsCase && isLocalAnyDepth(x, br.Cond, "finished") {
+					if want {
+						return 1
+					}
+					return -1
+				}
+				return 0
+			}
+		}
+		okSet, okRet := false, true
+		for _, a := range assignsIn(k, func(l ast.Expr) bool { return isLocalAnyDepth(k, l, "finished") }) {
+			if id, isID := ast.Unparen(a.Rhs).(*ast.Ident); isID && id.Name == "true" && g.HeldAt(a.Loc)["mu"] && g.GuardedBy(a.Loc, finishedIs(false)) {
+				okSet = true
+			}
+		}
+		for _, r := range returnsIn(k) {
+			if len(r.Stmt.Results) != 1 {
+				okRet = false
+				continue
+			}
+			v, isC := core.ConstBool(k.Info(), r.Stmt.Results[0])
+			okRet = okRet && isC && ((v && g.GuardedBy(r.Loc, finishedIs(false))) || (!v && g.GuardedBy(r.Loc, finishedIs(true))))
+		}
+		c.Check(R, sockUpgrade+"$conclude/test-and-set-under-mu", k.Pos(), okSet && okRet, keyf("finished = true with the mutex held on the not-finished edge: %v; returns true exactly there: %v", okSet, okRet))
+	}
+	won := concludeWon(true)
+	// terminating paths
+	type site struct {
+		key  string
+		unit *core.Unit
+	}
+	var sites []site
+	if k := mu.Kid("onError"); k != nil {
+		sites = append(sites, site{"onError", k})
+	}
+	for _, cl := range mu.CallsTo(setTimeoutKey) {
+		if k := closureArg(mu, cl, 0); k != nil {
+			sites = append(sites, site{"upgrade-timeout", k})
+		}
+	}
+	op := mu.Kid("onPacket")
+	if op != nil {
+		sites = append(sites, site{"onPacket", op})
+	}
+	n := 0
+	for _, st := range sites {
+		c.Touch(st.unit)
+		g := st.unit.Graph()
+		for _, cl := range st.unit.Calls() {
+			isCleanup := cl.Callee == nil && cl.Name == "cleanup"
+			isSwitch := cl.Key == sockSetTr
+			if !isCleanup && !isSwitch {
+				continue
+			}
+			n++
+			c.Check(R, keyf("%s$%s/%s-only-after-a-won-conclude", sockUpgrade, st.key, cl.Name), cl.Pos(), g.GuardedBy(cl.Loc, won), "this exit path runs only when it is the one that concludes the attempt")
+		}
+	}
+	c.Need(R, "cleanup / setTransport sites of an upgrade attempt", n, 5)
+	if op != nil {
+		g := op.Graph()
+		info := op.Info()
+		notFinished := func(x *core.Unit, br core.Branch) int {
+			if !br.IsCase && isLocalAnyDepth(x, br.Cond, "finished") {
+				return -1
+			}
+			return 0
+		}
+		probedIs := func(x *core.Unit, br core.Branch) int {
+			if !br.IsCase && isLocalAnyDepth(x, br.Cond, "probed") {
+				return 1
+			}
+			return 0
+		}
+		armed := false
+		for _, cl := range op.CallsTo(setIntervalKey) {
+			armed = g.HeldAt(cl.Loc)["mu"] && g.GuardedBy(cl.Loc, notFinished)
+		}
+		c.Check(R, sockUpgrade+"$onPacket/noop-interval-armed-under-mu-while-not-finished", op.Pos(), armed, "nothing is armed for an attempt that is over (its cleanup has run or is about to)")
+		recorded := false
+		for _, a := range assignsIn(op, func(l ast.Expr) bool { return isLocalAnyDepth(op, l, "probed") }) {
+			if id, isID := ast.Unparen(a.Rhs).(*ast.Ident); isID && id.Name == "true" {
+				recorded = g.HeldAt(a.Loc)["mu"] && g.GuardedBy(a.Loc, notFinished)
+			} else {
+				recorded = false
+			}
+		}
+		needsProbe := false
+		for _, cl := range op.CallsTo(sockSetTr) {
+			needsProbe = g.GuardedBy(cl.Loc, probedIs)
+		}
+		c.Check(R, sockUpgrade+"$onPacket/switch-needs-an-answered-probe", op.Pos(), recorded && needsProbe, keyf("probe recorded in the probe branch: %v; setTransport on the probed edge: %v", recorded, needsProbe))
+		// closed re-check after the switch
+		var set, upg *core.Call
+		for _, cl := range op.CallsTo(sockSetTr) {
+			set = cl
+		}
+		for _, e := range filterEv(events(c, op), "emit", "", "upgrade") {
+			upg = e.Call
+		}
+		recheck := false
+		if set != nil && upg != nil {
+			after := gAfter(stateExcludes(sockStateKeys, "socket.readyState", "closed"), set.Pos())
+			recheck = g.GuardedBy(upg.Loc, after)
+			torn := false
+			for _, cl := range op.CallsTo(sockClearTr) {
+				if g.Dominates(set.Loc, cl.Loc) && g.GuardedBy(cl.Loc, gAfter(stateIs(sockStateKeys, "closed"), set.Pos())) {
+					torn = true
+				}
+			}
+			recheck = recheck && torn
+		}
+		c.Check(R, sockUpgrade+"$onPacket/closed-session-re-checked-after-setTransport", op.Pos(), recheck, "Emit(upgrade) only if the session is not closed after the new transport was installed; otherwise clearTransport tears it down")
+		_ = info
+	}
+	if cu := c.Fn(R, sockClose); cu != nil {
+		g := cu.Graph()
+		ok := false
+		for _, cl := range cu.Calls() {
+			if cl.Name != "CompareAndSwap" || cl.Recv == nil || fieldOf(cu.Info(), cl.Recv) != "socket.readyState" || !paramGuard(cu, cl.Loc, 0) {
+				continue
+			}
+			for _, ct := range cu.Calls() {
+				if strings.HasSuffix(ct.Key, ".closeTransport") && paramGuard(cu, ct.Loc, 0) && g.Dominates(cl.Loc, ct.Loc) {
+					ok = true
+				}
+			}
+		}
+		c.Check(R, sockClose+"/discard: closing-published≺closeTransport", cu.Pos(), ok, "a transport switch under way sees 'closing' and closes the new transport with the close callback")
+	}
+}
+
+// discardCompletesBufferedClose (C12.14 = C04.10) — fix f776a3e.
+func discardCompletesBufferedClose(c *core.Ctx, R string) {
+	c.Rule(R, "a discarded polling transport completes an orderly close that is waiting for the next poll: polling.Discard calls the base Discard and runs the closure it takes with shouldClose.Swap(nil) (send takes it the same way, so it runs once) — transport.Close returns at once for a transport that is already closing, so nothing else would end the session before the close timeout")
+	u := c.Fn(R, "transports.(*polling).Discard")
+	if u == nil {
+		return
+	}
+	g := u.Graph()
+	base, run := false, false
+	taken := nilGuard(true, func(x *core.Unit, e ast.Expr) bool {
+		d, ok := x.SingleDef(e)
+		if !ok {
+			return false
+		}
+		ce, isC := ast.Unparen(d).(*ast.CallExpr)
+		if !isC {
+			return false
+		}
+		se, isS := ce.Fun.(*ast.SelectorExpr)
+		return isS && se.Sel.Name == "Swap" && len(ce.Args) == 1 && core.IsNil(x.Info(), ce.Args[0]) && fieldOf(x.Info(), se.X) == "polling.shouldClose"
+	})
+	for _, cl := range u.Calls() {
+		if cl.Name == "Discard" && cl.Recv != nil && fieldOf(u.Info(), cl.Recv) == "polling.Transport" {
+			base = true
+		}
+		if cl.Callee == nil && g.GuardedBy(cl.Loc, taken) {
+			if _, isStar := ast.Unparen(cl.Expr.Fun).(*ast.StarExpr); isStar {
+				run = true
+			}
+		}
+	}
+	c.Check(R, "transports.(*polling).Discard/base-Discard+run(shouldClose.Swap(nil))", u.Pos(), base && run, keyf("base Discard called: %v; pending close closure taken with Swap(nil) and run: %v", base, run))
+}
